@@ -1,3 +1,129 @@
-//! placeholder, filled in below
+//! C13 (Engine K part) — `ChainTracker::{new, step, stats}` and `MultiChainTracker::step` in exact
+//! f32 arithmetic: the count, the exponential moving average of "state differs from previous
+//! state" (weight 0.01), its range, and absence of panics on any f32/f64/i32 states incl. NaN.
+//! (Mean/variance formulas are decided by the MIR engine over the reals.)
+
 use crate::Src;
-pub fn by_name(_name: &str) -> Option<fn(&mut Src)> { None }
+use crate::{chk, cov};
+use mini_mcmc::stats::{ChainTracker, MultiChainTracker};
+
+const ALPHA: f32 = 0.01;
+
+macro_rules! c13_tracker_body {
+    ($name:ident, $T:ty, $anyt:ident, $tof32:expr, $steps:expr, $robust:expr) => {
+        pub fn $name(src: &mut Src) {
+            const P: usize = 2;
+            const STEPS: usize = $steps;
+            let robust: bool = $robust;
+            let tof32 = $tof32;
+            let init: [$T; P] = [src.$anyt(), src.$anyt()];
+            let mut tr = ChainTracker::new(P, &init);
+            let mut prev: [f32; P] = [tof32(init[0]), tof32(init[1])];
+            let mut p_model: f32 = -1.0;
+            let mut k = 0;
+            while k < STEPS {
+                let x: [$T; P] = [src.$anyt(), src.$anyt()];
+                let xf: [f32; P] = [tof32(x[0]), tof32(x[1])];
+                let r = tr.step(&x);
+                chk!(src, r.is_ok(), "step succeeds on a state of the right length");
+                let differs = xf[0] != prev[0] || xf[1] != prev[1];
+                let ind: f32 = if differs { 1.0 } else { 0.0 };
+                let st = tr.stats();
+                chk!(src, st.n == (k as u64) + 1, "n counts the updates");
+                chk!(src, st.p_accept >= 0.0 && st.p_accept <= 1.0, "the acceptance rate lies in [0,1]");
+                if k == 0 {
+                    chk!(src, differs || st.p_accept == 0.0, "first update without a move reports acceptance rate 0");
+                    chk!(src, !differs || st.p_accept > 0.0, "first update with a move reports a positive acceptance rate");
+                } else {
+                    let want = (1.0 - ALPHA) * p_model + ALPHA * ind;
+                    if robust {
+                        chk!(src, (st.p_accept - want).abs() <= 1.0e-6, "acceptance rate is the EMA (weight 0.01) of the move indicator");
+                    } else {
+                        chk!(src, st.p_accept == want, "acceptance rate is the EMA (weight 0.01) of the move indicator");
+                    }
+                }
+                chk!(src, st.mean.len() == P && st.sm2.len() == P, "statistics have one entry per parameter");
+                p_model = st.p_accept;
+                prev = xf;
+                k += 1;
+            }
+            cov!(src, p_model == 1.0, "acceptance rate 1");
+            cov!(src, p_model == 0.0, "acceptance rate 0");
+            cov!(src, prev[0].is_nan(), "NaN state");
+            cov!(src, true, "end reached");
+        }
+    };
+}
+c13_tracker_body!(c13_tracker_f32_s3, f32, f32, |v: f32| v, 2, false);
+c13_tracker_body!(c13_tracker_f32_s3_robust, f32, f32, |v: f32| v, 2, true);
+c13_tracker_body!(c13_tracker_f64_s2, f64, f64, |v: f64| v as f32, 2, false);
+c13_tracker_body!(c13_tracker_f64_s2_robust, f64, f64, |v: f64| v as f32, 2, true);
+
+/// integer states: conversion to f32 cannot fail, count and range as above
+pub fn c13_tracker_i32_s2(src: &mut Src) {
+    const P: usize = 2;
+    let init: [i32; P] = [src.i32(), src.i32()];
+    let mut tr = ChainTracker::new(P, &init);
+    let mut k = 0;
+    while k < 2 {
+        let x: [i32; P] = [src.i32(), src.i32()];
+        let r = tr.step(&x);
+        chk!(src, r.is_ok(), "step succeeds on a state of the right length");
+        let st = tr.stats();
+        chk!(src, st.n == (k as u64) + 1, "n counts the updates");
+        chk!(src, st.p_accept >= 0.0 && st.p_accept <= 1.0, "the acceptance rate lies in [0,1]");
+        k += 1;
+    }
+    cov!(src, true, "end reached");
+}
+
+macro_rules! c13_multi_body {
+    ($name:ident, $robust:expr) => {
+        pub fn $name(src: &mut Src) {
+            const C: usize = 2;
+            const P: usize = 2;
+            let robust: bool = $robust;
+            let mut tr = MultiChainTracker::new(C, P);
+            let mut prev: [f32; C * P] = [0.0; C * P];
+            let mut p_model: f32 = 0.0;
+            let mut k = 0;
+            while k < 2 {
+                let x: [f32; C * P] = [src.f32(), src.f32(), src.f32(), src.f32()];
+                let r = tr.step(&x);
+                chk!(src, r.is_ok(), "step succeeds on states of the right shape");
+                let mut c = 0;
+                while c < C {
+                    let differs = x[c * P] != prev[c * P] || x[c * P + 1] != prev[c * P + 1];
+                    let ind: f32 = if differs { 1.0 } else { 0.0 };
+                    p_model = (1.0 - ALPHA) * p_model + ALPHA * ind;
+                    c += 1;
+                }
+                if robust {
+                    chk!(src, (tr.p_accept - p_model).abs() <= 1.0e-6, "multi-chain acceptance rate: one EMA update (weight 0.01) per chain row");
+                } else {
+                    chk!(src, tr.p_accept == p_model, "multi-chain acceptance rate: one EMA update (weight 0.01) per chain row");
+                }
+                chk!(src, tr.p_accept >= 0.0 && tr.p_accept <= 1.0, "the acceptance rate lies in [0,1]");
+                prev = x;
+                k += 1;
+            }
+            cov!(src, tr.p_accept > 0.0, "some move");
+            cov!(src, true, "end reached");
+        }
+    };
+}
+c13_multi_body!(c13_multi_f32, false);
+c13_multi_body!(c13_multi_f32_robust, true);
+
+pub fn by_name(name: &str) -> Option<fn(&mut Src)> {
+    Some(match name {
+        "c13_tracker_f32_s3" => c13_tracker_f32_s3,
+        "c13_tracker_f32_s3_robust" => c13_tracker_f32_s3_robust,
+        "c13_tracker_f64_s2" => c13_tracker_f64_s2,
+        "c13_tracker_f64_s2_robust" => c13_tracker_f64_s2_robust,
+        "c13_tracker_i32_s2" => c13_tracker_i32_s2,
+        "c13_multi_f32" => c13_multi_f32,
+        "c13_multi_f32_robust" => c13_multi_f32_robust,
+        _ => return None,
+    })
+}
